@@ -362,12 +362,32 @@ pub fn oracle(ctx: &mut Ctx) {
                 continue;
             }
         }
-        if bytes == &case.input { st.count("returned_input"); continue; }
+        // (an unchanged file is still judged for C07: a chunk the policy strips must be gone whether or not the
+        // image data could be improved)
+        if bytes == &case.input { st.count("returned_input"); if prop != "C07" { continue; } }
         let dec = match decode(bytes) {
             Ok(d) => d,
             Err(e) => { st.fail("undecodable-output", e, case.replay_json()); continue; }
         };
         st.count("ok");
+        if prop == "C07" && !animated && rng.chance(1, 3) {
+            // second stage: the (now hardly improvable) output under another strip policy
+            let mut o2 = case.opts.clone();
+            o2.strip = gen_strip(&mut rng, &case.enc);
+            o2.force = false;
+            let case2 = Case { img: case.img.clone(), class: format!("{} stage2", case.class), enc: case.enc.clone(), input: bytes.clone(), opts: o2 };
+            let keeps_c2pa = { let ox = case2.opts.to_oxi(); case2.opts.strip != HStrip::None && oxipng::verif::strip_keep(&ox.strip, b"caBX") };
+            if !(dec.chunks.iter().any(|c| &c.name == b"caBX") && keeps_c2pa) {
+                match run_case(&case2.input, &case2.opts) {
+                    Outcome::Ok(b2) => match decode(&b2) {
+                        Ok(d2) => { st.count("stage2"); if b2 == case2.input { st.count("stage2_returned_input"); } judge_c07(&case2, &dec, &d2, &mut st); }
+                        Err(e) => st.fail("undecodable-output", e, case2.replay_json()),
+                    },
+                    Outcome::Err(e) => st.fail("error-on-valid", format!("second stage failed: {}", e), case2.replay_json()),
+                    Outcome::Panic => st.fail("panic", "second stage panicked".into(), case2.replay_json()),
+                }
+            }
+        }
         match prop.as_str() {
             "C07" => judge_c07(&case, &inp, &dec, &mut st),
             "C14" => judge_c14(&case, &inp, &dec, &mut st),
